@@ -372,7 +372,9 @@ func c10RealTime(run *ev.Run) {
 		abs, idle int
 		wantAlive bool
 	}
-	cfgs := []cfg{{"absolute=2s", 2, 0, false}, {"idle=2s", 0, 2, false}, {"absolute=3600s idle=3600s", 3600, 3600, true}}
+	cfgs := []cfg{{"absolute=2s", 2, 0, false}, {"idle=2s", 0, 2, false}, {"absolute=3600s idle=3600s", 3600, 3600, true},
+		// kept alive by a request every ~1.3 s: activity must not stretch the absolute limit, and must stretch the idle one
+		{"absolute=2s idle=3600s keep-alive", 2, 3600, false}, {"absolute=3600s idle=2s keep-alive", 3600, 2, true}}
 	type live struct {
 		c       cfg
 		sw      *world.SWorld
@@ -401,8 +403,28 @@ func c10RealTime(run *ev.Run) {
 		}
 		ls = append(ls, live{c, sw, f, sid, cn})
 	}
-	time.Sleep(4 * time.Second)
+	// 4 s in three steps; the keep-alive configurations get a request at every step
+	maxGap := time.Duration(0)
+	last := time.Now()
+	for step := 0; step < 3; step++ {
+		time.Sleep(1334 * time.Millisecond)
+		for _, l := range ls {
+			if strings.Contains(l.c.name, "keep-alive") && step < 2 {
+				l.sw.Do(world.SReq{Tenant: "a", Path: "/a/app", Cookies: map[string]string{l.cn: l.sid}})
+			}
+		}
+		if g := time.Since(last); g > maxGap {
+			maxGap = g
+		}
+		last = time.Now()
+	}
 	for _, l := range ls {
+		if l.c.wantAlive && strings.Contains(l.c.name, "keep-alive") && maxGap > 1700*time.Millisecond {
+			// the machine stalled: the idle limit may legitimately have passed between two keep-alive requests
+			run.Class("realtime|" + l.c.name + "|skipped-slow-machine")
+			l.sw.Close()
+			continue
+		}
 		r := l.sw.Do(world.SReq{Tenant: "a", Path: "/a/app", Cookies: map[string]string{l.cn: l.sid}})
 		run.Class(fmt.Sprintf("realtime|%s|ok-after-4s=%v", l.c.name, r.OK))
 		run.Transitions += 3
